@@ -9,7 +9,7 @@ use std::collections::BTreeMap;
 
 use emit::{Ctxt, Props};
 use vh_common::*;
-use vh_enc::cv::{ChainErr, En, Pool, Rec, CTLS, LOOKALIKES, STRS, UNIS};
+use vh_enc::cv::{ChainErr, En, Pool, Rec, CTLS, F64S, LOOKALIKES, STRS, UNIS};
 
 #[derive(Clone, Copy, PartialEq, Debug)]
 enum Step {
@@ -19,6 +19,7 @@ enum Step {
     ToOwned,
     ToShared,
     IntoCtxt,
+    PushFrame,
     MoveThread,
     ReadBack,
 }
@@ -31,6 +32,7 @@ fn step_of(s: &str) -> Step {
         "ToOwned" => Step::ToOwned,
         "ToShared" => Step::ToShared,
         "IntoCtxt" => Step::IntoCtxt,
+        "PushFrame" => Step::PushFrame,
         "MoveThread" => Step::MoveThread,
         "ReadBack" => Step::ReadBack,
         o => tool_error(&format!("unknown step {o}")),
@@ -63,8 +65,15 @@ struct Expect {
 
 type Observe<'a> = &'a (dyn Fn(emit::Value) -> Option<String> + Sync);
 
-fn observe(v: emit::Value, pull: Observe) -> Obs {
-    let chain = v.to_borrowed_error().map(|e| {
+/// The type-specific pull observer plus the read path the final observation goes through.
+#[derive(Clone, Copy)]
+struct Rd<'a> {
+    pull: Observe<'a>,
+    reader: &'a str,
+}
+
+fn chain_of_value(v: &emit::Value) -> Option<Vec<String>> {
+    v.to_borrowed_error().map(|e| {
         let mut out = vec![e.to_string()];
         let mut c = e.source();
         while let Some(s) = c {
@@ -72,23 +81,79 @@ fn observe(v: emit::Value, pull: Observe) -> Obs {
             c = s.source();
         }
         out
-    });
+    })
+}
+
+fn observe(v: emit::Value, pull: Observe) -> Obs {
     Obs {
         display: v.to_string(),
         debug: format!("{v:?}"),
         serde: serde_json::to_string(&v).ok(),
         sval: sval_json::stream_to_string(&v).ok(),
-        chain,
+        chain: chain_of_value(&v),
         is_null: v.is_null(),
         pull: pull(v),
     }
 }
 
-fn after_owned(o: emit::value::OwnedValue, path: &[Step], pull: Observe) -> Obs {
+fn lost(what: &str) -> Obs {
+    Obs { display: format!("<<property lost {what}>>"), ..Default::default() }
+}
+
+/// The final observation of a borrowed Value through one of its read paths.
+fn read_value(v: emit::Value, rd: Rd) -> Obs {
+    use emit::value::ToValue;
+    match rd.reader {
+        "value" | "enumerated" | "pulled" => observe(v, rd.pull),
+        "clone" => observe(v.clone(), rd.pull),
+        "to_value" => {
+            let o = observe(v.to_value(), rd.pull);
+            let o2 = observe(emit::Value::from_any(&v), rd.pull);
+            if o.display != o2.display { lost("(to_value and from_any disagree)") } else { o }
+        }
+        "render" => {
+            // a template hole rendered with the value: what every sink's message shows
+            let mut o = observe(v.by_ref(), rd.pull);
+            let parts = [emit::template::Part::hole_ref("k")];
+            o.display = emit::Template::new_ref(&parts).render(("k", v)).to_string();
+            o
+        }
+        // after a ReadBack the value is a plain borrowed Value again
+        _ => observe(v, rd.pull),
+    }
+}
+
+/// The final observation of an owned / shared copy.
+fn read_owned(o: &emit::value::OwnedValue, rd: Rd) -> Obs {
+    use emit::value::ToValue;
+    match rd.reader {
+        // the impls of OwnedValue itself
+        "direct" => {
+            let v: emit::Value = o.into();
+            Obs {
+                display: o.to_string(),
+                debug: format!("{o:?}"),
+                serde: serde_json::to_string(o).ok(),
+                sval: sval_json::stream_to_string(o).ok(),
+                chain: chain_of_value(&v),
+                is_null: v.is_null(),
+                pull: (rd.pull)(v),
+            }
+        }
+        "clone" => {
+            let c = o.clone();
+            observe(c.by_ref(), rd.pull)
+        }
+        "to_value" => observe(o.to_value(), rd.pull),
+        _ => observe(o.by_ref(), rd.pull),
+    }
+}
+
+fn after_owned(o: emit::value::OwnedValue, path: &[Step], rd: Rd) -> Obs {
     match path.split_first() {
-        None => observe(o.by_ref(), pull),
-        Some((Step::ReadBack, rest)) => go(o.by_ref(), rest, pull),
-        Some((Step::MoveThread, rest)) => std::thread::scope(|s| s.spawn(move || after_owned(o, rest, pull)).join().unwrap_or_else(|e| std::panic::resume_unwind(e))),
+        None => read_owned(&o, rd),
+        Some((Step::ReadBack, rest)) => go(o.by_ref(), rest, rd),
+        Some((Step::MoveThread, rest)) => std::thread::scope(|s| s.spawn(move || after_owned(o, rest, rd)).join().unwrap_or_else(|e| std::panic::resume_unwind(e))),
         Some((s, _)) => tool_error(&format!("step {s:?} on an owned value")),
     }
 }
@@ -96,51 +161,82 @@ fn after_owned(o: emit::value::OwnedValue, path: &[Step], pull: Observe) -> Obs 
 type TlCtxt = emit::platform::thread_local_ctxt::ThreadLocalCtxt;
 type TlFrame = <TlCtxt as Ctxt>::Frame;
 
-fn after_frame(ctxt: TlCtxt, mut frame: TlFrame, path: &[Step], pull: Observe) -> Obs {
+fn after_frame(ctxt: TlCtxt, mut frame: TlFrame, path: &[Step], rd: Rd) -> Obs {
     match path.split_first() {
-        Some((Step::MoveThread, rest)) => std::thread::scope(|s| s.spawn(move || after_frame(ctxt, frame, rest, pull)).join().unwrap_or_else(|e| std::panic::resume_unwind(e))),
-        Some((Step::ReadBack, _)) | None => {
-            let rest = if path.is_empty() { path } else { &path[1..] };
+        Some((Step::MoveThread, rest)) => std::thread::scope(|s| s.spawn(move || after_frame(ctxt, frame, rest, rd)).join().unwrap_or_else(|e| std::panic::resume_unwind(e))),
+        Some((Step::PushFrame, rest)) => {
+            // a child frame opened inside this one: open_push copies the current properties
             ctxt.enter(&mut frame);
-            let r = ctxt.with_current(|cur| match cur.get("k") {
-                Some(v) => Some(go(v, rest, pull)),
-                None => None,
-            });
+            let child = ctxt.open_push(("other", 1));
+            ctxt.exit(&mut frame);
+            let r = after_frame(ctxt, child, rest, rd);
+            ctxt.close(frame);
+            r
+        }
+        Some((Step::ReadBack, rest)) => {
+            ctxt.enter(&mut frame);
+            let r = ctxt.with_current(|cur| cur.get("k").map(|v| go(v, rest, rd)));
             ctxt.exit(&mut frame);
             ctxt.close(frame);
-            r.unwrap_or_else(|| Obs { display: "<<property lost in the context>>".into(), ..Default::default() })
+            r.unwrap_or_else(|| lost("in the context"))
+        }
+        None => {
+            let r = if rd.reader == "frame_props" {
+                // the frame itself is a Props, readable without entering it
+                frame.get("k").map(|v| observe(v, rd.pull))
+            } else {
+                ctxt.enter(&mut frame);
+                let r = ctxt.with_current(|cur| match rd.reader {
+                    "for_each" => {
+                        let mut r = None;
+                        let _ = cur.for_each(|k, v| {
+                            if k.get() == "k" && r.is_none() {
+                                r = Some(observe(v, rd.pull));
+                            }
+                            std::ops::ControlFlow::Continue(())
+                        });
+                        r
+                    }
+                    "pull" => cur.pull::<emit::Value, _>("k").map(|v| observe(v, rd.pull)),
+                    _ => cur.get("k").map(|v| observe(v, rd.pull)),
+                });
+                ctxt.exit(&mut frame);
+                r
+            };
+            ctxt.close(frame);
+            r.unwrap_or_else(|| lost("in the context"))
         }
         Some((s, _)) => tool_error(&format!("step {s:?} on a frame")),
     }
 }
 
-/// Apply the path to the captured value, then observe.
-fn go(v: emit::Value, path: &[Step], pull: Observe) -> Obs {
+/// Apply the path to the captured value, then observe through the reader.
+fn go(v: emit::Value, path: &[Step], rd: Rd) -> Obs {
     match path.split_first() {
-        None => observe(v, pull),
-        Some((Step::ByRef, rest)) => go(v.by_ref(), rest, pull),
+        None => read_value(v, rd),
+        Some((Step::ByRef, rest)) => go(v.by_ref(), rest, rd),
         Some((Step::Erase, rest)) => {
             let props = [("k", v)];
             let erased: &dyn emit::props::ErasedProps = &props;
             match erased.get("k") {
-                Some(v) => go(v, rest, pull),
-                None => Obs { display: "<<property lost by erasure>>".into(), ..Default::default() },
+                Some(v) => go(v, rest, rd),
+                None => lost("by erasure"),
             }
         }
         Some((Step::EraseEvent, rest)) => {
             let evt = emit::Event::new(emit::Path::new_raw("c19"), emit::Template::literal("t"), emit::Empty, [("k", v)]);
             let erased = evt.erase();
             match erased.props().get("k") {
-                Some(v) => go(v, rest, pull),
-                None => Obs { display: "<<property lost by erasure>>".into(), ..Default::default() },
+                Some(v) => go(v, rest, rd),
+                None => lost("by erasure"),
             }
         }
-        Some((Step::ToOwned, rest)) => after_owned(v.to_owned(), rest, pull),
-        Some((Step::ToShared, rest)) => after_owned(v.to_shared(), rest, pull),
+        Some((Step::ToOwned, rest)) => after_owned(v.to_owned(), rest, rd),
+        Some((Step::ToShared, rest)) => after_owned(v.to_shared(), rest, rd),
         Some((Step::IntoCtxt, rest)) => {
             let ctxt = TlCtxt::new();
             let frame = ctxt.open_root(("k", v));
-            after_frame(ctxt, frame, rest, pull)
+            after_frame(ctxt, frame, rest, rd)
         }
         Some((s, _)) => tool_error(&format!("step {s:?} on a borrowed value")),
     }
@@ -151,12 +247,14 @@ struct SiteResult {
     enumerated: usize,
     absent_everywhere: bool,
     obs: Option<Obs>,
+    /// Display text of the captured Value before any transformation
+    base_display: Option<String>,
     exp: Expect,
     orig: String,
 }
 
-/// Read property `k` of the props built at the call site and send it down the path.
-fn finish(props: &impl Props, key: &str, path: &[Step], pull: Observe, exp: Expect, orig: String) -> SiteResult {
+/// Read property `key` of the props built at the call site and send it down the path.
+fn finish(props: &impl Props, key: &str, path: &[Step], rd: Rd, exp: Expect, orig: String) -> SiteResult {
     let mut enumerated = 0;
     let _ = props.for_each(|k, _| {
         if k.get() == key {
@@ -166,11 +264,12 @@ fn finish(props: &impl Props, key: &str, path: &[Step], pull: Observe, exp: Expe
     });
     let got = props.get(key);
     let present = got.is_some();
+    let base_display = got.as_ref().map(|v| v.to_string());
     // an absent property stays absent wherever the props go
     let mut absent_everywhere = true;
     if !present {
         let erased: &dyn emit::props::ErasedProps = &props;
-        if erased.get("k").is_some() {
+        if erased.get(key).is_some() || props.pull::<emit::Value, _>(key).is_some() {
             absent_everywhere = false;
         }
         let ctxt = TlCtxt::new();
@@ -182,21 +281,42 @@ fn finish(props: &impl Props, key: &str, path: &[Step], pull: Observe, exp: Expe
                 n += 1;
                 std::ops::ControlFlow::Continue(())
             });
-            if n != 0 || cur.get("k").is_some() {
+            if n != 0 || cur.get(key).is_some() {
                 absent_everywhere = false;
             }
         });
         ctxt.exit(&mut frame);
         ctxt.close(frame);
     }
-    let obs = got.map(|v| go(v, path, pull));
-    SiteResult { present, enumerated, absent_everywhere, obs, exp, orig }
+    let obs = match rd.reader {
+        // the value handed out by enumeration instead of lookup
+        "enumerated" if path.is_empty() => {
+            let mut r = None;
+            let _ = props.for_each(|k, v| {
+                if k.get() == key && r.is_none() {
+                    r = Some(go(v, path, rd));
+                }
+                std::ops::ControlFlow::Continue(())
+            });
+            if present { Some(r.unwrap_or_else(|| lost("by enumeration"))) } else { None }
+        }
+        "pulled" if path.is_empty() => {
+            let v = props.pull::<emit::Value, _>(key);
+            if present { Some(v.map(|v| go(v, path, rd)).unwrap_or_else(|| lost("by pull"))) } else { None }
+        }
+        _ => got.map(|v| go(v, path, rd)),
+    };
+    SiteResult { present, enumerated, absent_everywhere, obs, base_display, exp, orig }
 }
 
 // ---------------------------------------------------------------- pool values per Rust type
 
 trait Gen: Sized {
     fn gen(p: &mut Pool) -> Self;
+    /// every extreme of the pool for this type (short paths run on all of them)
+    fn extremes(p: &mut Pool) -> Vec<Self> {
+        vec![Self::gen(p)]
+    }
 }
 macro_rules! gen_int {
     ($($t:ty),*) => {$(
@@ -209,6 +329,9 @@ macro_rules! gen_int {
                     3 => 1,
                     _ => ((p.rng.next() as u128) << 64 | p.rng.next() as u128) as $t,
                 }
+            }
+            fn extremes(p: &mut Pool) -> Vec<$t> {
+                vec![<$t>::MAX, <$t>::MIN, 0, 1, <$t>::MAX / 2 + 1, (<$t>::MAX / 3) as $t, ((p.rng.next() as u128) << 64 | p.rng.next() as u128) as $t]
             }
         }
     )*};
@@ -223,20 +346,36 @@ impl Gen for f64 {
             _ => p.f64(),
         }
     }
+    fn extremes(p: &mut Pool) -> Vec<f64> {
+        let mut v = F64S.to_vec();
+        v.extend([f64::NAN, -f64::NAN, f64::INFINITY, f64::NEG_INFINITY, p.f64()]);
+        v
+    }
 }
+const F32S: &[f32] = &[0.0f32, -0.0, 1.5, f32::MAX, f32::MIN, f32::MIN_POSITIVE, 1e-45, 0.1, f32::EPSILON, f32::INFINITY, f32::NEG_INFINITY, f32::NAN, 16777217.0];
 impl Gen for f32 {
     fn gen(p: &mut Pool) -> f32 {
-        p.pick(&[0.0f32, -0.0, 1.5, f32::MAX, f32::MIN, f32::MIN_POSITIVE, 1e-45, 0.1, f32::EPSILON, f32::INFINITY, 16777217.0])
+        p.pick(F32S)
+    }
+    fn extremes(_: &mut Pool) -> Vec<f32> {
+        F32S.to_vec()
     }
 }
 impl Gen for bool {
     fn gen(p: &mut Pool) -> bool {
         p.rng.below(2) == 1
     }
+    fn extremes(_: &mut Pool) -> Vec<bool> {
+        vec![false, true]
+    }
 }
+const CHARS: &[char] = &['a', '\0', '\n', '"', '\\', '\u{e9}', '\u{1F600}', '\u{10FFFF}', '\u{7f}', '\'', ' ', '{', '\u{FEFF}'];
 impl Gen for char {
     fn gen(p: &mut Pool) -> char {
-        p.pick(&['a', '\0', '\n', '"', '\\', '\u{e9}', '\u{1F600}', '\u{10FFFF}', '\u{7f}', '\''])
+        p.pick(CHARS)
+    }
+    fn extremes(_: &mut Pool) -> Vec<char> {
+        CHARS.to_vec()
     }
 }
 impl Gen for String {
@@ -248,6 +387,11 @@ impl Gen for String {
             2 => p.string(),
             _ => p.pick(STRS).to_string(),
         }
+    }
+    fn extremes(p: &mut Pool) -> Vec<String> {
+        let mut v: Vec<String> = STRS.iter().chain(CTLS).chain(UNIS).chain(LOOKALIKES).map(|s| s.to_string()).collect();
+        v.push("x".repeat(p.long));
+        v
     }
 }
 impl Gen for Rec {
@@ -348,8 +492,11 @@ impl Gen for SomeI32 {
 struct Site {
     mode: &'static str,
     class: &'static str,
+    wrap: &'static str,
     ty: &'static str,
-    run: fn(&mut Pool, &[Step]) -> SiteResult,
+    /// capture a value (the idx-th pool extreme, or a seeded draw) at the call site, send it
+    /// down the path and observe through the reader; None: no such extreme
+    run: fn(&mut Pool, &[Step], &str, Option<usize>) -> Option<SiteResult>,
 }
 
 fn no_pull(_: emit::Value) -> Option<String> {
@@ -364,13 +511,27 @@ fn chain_of(e: &ChainErr) -> Vec<String> {
 ///   site!(reg, mode, class, Type, [attributes], key, |o| value-expression,
 ///         |x, exp| { fill the expectation from the original }, pull-closure)
 macro_rules! site {
+    // the plain form: emit::props! { attrs key: expr }
     ($reg:ident, $mode:literal, $class:literal, $ty:ty, [$($attr:tt)*], $key:ident, |$o:ident| $e:expr, |$x:ident, $exp:ident| $fill:block, $pull:expr) => {
+        site!(@core $reg, $mode, $class, "props", $ty, stringify!($key), |$o| { let props = emit::props! { $($attr)* $key: $e }; } => &props, |$x, $exp| $fill, $pull);
+    };
+    (@core $reg:ident, $mode:literal, $class:literal, $wrap:literal, $ty:ty, $keystr:expr, |$o:ident| { $($build:tt)* } => $props:expr, |$x:ident, $exp:ident| $fill:block, $pull:expr) => {
         $reg.push(Site {
             mode: $mode,
             class: $class,
+            wrap: $wrap,
             ty: stringify!($ty),
-            run: |pool: &mut Pool, path: &[Step]| -> SiteResult {
-                let orig: $ty = <$ty as Gen>::gen(pool);
+            run: |pool: &mut Pool, path: &[Step], reader: &str, idx: Option<usize>| -> Option<SiteResult> {
+                let orig: $ty = match idx {
+                    None => <$ty as Gen>::gen(pool),
+                    Some(i) => {
+                        let mut all = <$ty as Gen>::extremes(pool);
+                        if i >= all.len() {
+                            return None;
+                        }
+                        all.swap_remove(i)
+                    }
+                };
                 #[allow(unused_mut)]
                 let mut $exp = Expect::default();
                 {
@@ -378,11 +539,23 @@ macro_rules! site {
                     $fill
                 }
                 let $o = &orig;
-                let props = emit::props! { $($attr)* $key: $e };
+                $($build)*
                 let pull = $pull;
-                finish(&props, stringify!($key), path, &pull, $exp, String::new())
+                Some(finish($props, $keystr, path, Rd { pull: &pull, reader }, $exp, String::new()))
             },
         });
+    };
+}
+
+/// The same capture inside the other macro forms: a renamed key before / after the capture
+/// attribute, an evt! property, an evt! template hole (`$tpl` is the literal template with the
+/// attribute inside the hole).
+macro_rules! wrapped_sites {
+    ($reg:ident, $mode:literal, $class:literal, $ty:ty, [$($attr:tt)*], $tpl:tt, |$o:ident| $e:expr, |$x:ident, $exp:ident| $fill:block, $pull:expr) => {
+        site!(@core $reg, $mode, $class, "key_first", $ty, "re named", |$o| { let props = emit::props! { #[emit::key("re named")] $($attr)* k: $e }; } => &props, |$x, $exp| $fill, $pull);
+        site!(@core $reg, $mode, $class, "key_last", $ty, "re named", |$o| { let props = emit::props! { $($attr)* #[emit::key("re named")] k: $e }; } => &props, |$x, $exp| $fill, $pull);
+        site!(@core $reg, $mode, $class, "evt_prop", $ty, "k", |$o| { let evt = emit::evt!("t", $($attr)* k: $e); } => evt.props(), |$x, $exp| $fill, $pull);
+        site!(@core $reg, $mode, $class, "evt_hole", $ty, "k", |$o| { let k = $e; let evt = emit::evt!($tpl); } => evt.props(), |$x, $exp| $fill, $pull);
     };
 }
 
@@ -449,7 +622,72 @@ fn sites() -> Vec<Site> {
     prim_sites!(reg, "bool", bool);
     // strings: as &str and as String
     prim_sites!(@with reg, "str", String, |o| &o[..], |o| Some(&o[..]), |v: emit::Value| v.cast::<Cow<str>>().map(|x| format!("{:?}", &*x)), |x| format!("{:?}", &x[..]));
-    prim_sites!(@with reg, "str", String, |o| o, |o| Some(o), |v: emit::Value| v.cast::<Cow<str>>().map(|x| format!("{:?}", &*x)), |x| format!("{:?}", &x[..]));
+    prim_sites!(@with reg, "string", String, |o| o, |o| Some(o), |v: emit::Value| v.cast::<Cow<str>>().map(|x| format!("{:?}", &*x)), |x| format!("{:?}", &x[..]));
+
+    // an explicit `inspect: false` argument means the same as no argument
+    macro_rules! inspect_false_sites {
+        ($class:literal, $ty:ty, |$o:ident| $e:expr, [$($which:ident),*], $pull:expr, |$px:ident| $pexp:expr) => {$(
+            inspect_false_sites!(@one $which, $class, $ty, |$o| $e, $pull, |$px| $pexp);
+        )*};
+        (@one display, $class:literal, $ty:ty, |$o:ident| $e:expr, $pull:expr, |$px:ident| $pexp:expr) => {
+            site!(reg, "as_display_inspect_false", $class, $ty, [#[emit::as_display(inspect: false)]], k, |$o| $e, |x, exp| { exp.display = Some(format!("{}", x)); }, no_pull);
+        };
+        (@one debug, $class:literal, $ty:ty, |$o:ident| $e:expr, $pull:expr, |$px:ident| $pexp:expr) => {
+            site!(reg, "as_debug_inspect_false", $class, $ty, [#[emit::as_debug(inspect: false)]], k, |$o| $e, |x, exp| { exp.debug = Some(format!("{:?}", x)); }, no_pull);
+        };
+        (@one value, $class:literal, $ty:ty, |$o:ident| $e:expr, $pull:expr, |$px:ident| $pexp:expr) => {
+            site!(reg, "as_value_inspect_false", $class, $ty, [#[emit::as_value(inspect: false)]], k, |$o| $e, |x, exp| { let $px = x; exp.pull = Some($pexp); }, $pull);
+        };
+        (@one sval, $class:literal, $ty:ty, |$o:ident| $e:expr, $pull:expr, |$px:ident| $pexp:expr) => {
+            site!(reg, "as_sval_inspect_false", $class, $ty, [#[emit::as_sval(inspect: false)]], k, |$o| $e, |x, exp| { exp.serde = serde_json::to_string(x).ok(); exp.sval = sval_json::stream_to_string(x).ok(); }, no_pull);
+        };
+        (@one serde, $class:literal, $ty:ty, |$o:ident| $e:expr, $pull:expr, |$px:ident| $pexp:expr) => {
+            site!(reg, "as_serde_inspect_false", $class, $ty, [#[emit::as_serde(inspect: false)]], k, |$o| $e, |x, exp| { exp.serde = serde_json::to_string(x).ok(); exp.sval = sval_json::stream_to_string(x).ok(); }, no_pull);
+        };
+    }
+    inspect_false_sites!("int", i32, |o| *o, [display, debug, value, sval, serde], |v: emit::Value| v.cast::<i32>().map(|x| format!("{x:?}")), |x| format!("{x:?}"));
+    inspect_false_sites!("int", u64, |o| *o, [display, debug, value, sval, serde], |v: emit::Value| v.cast::<u64>().map(|x| format!("{x:?}")), |x| format!("{x:?}"));
+    inspect_false_sites!("float", f64, |o| *o, [display, debug, value, sval, serde], |v: emit::Value| v.cast::<f64>().map(|x| format!("{x:?}")), |x| format!("{x:?}"));
+    inspect_false_sites!("string", String, |o| o, [display, debug, value, sval, serde], |v: emit::Value| v.cast::<Cow<str>>().map(|x| format!("{:?}", &*x)), |x| format!("{:?}", &x[..]));
+    inspect_false_sites!("char", char, |o| *o, [display, debug, sval, serde], no_pull, |x| format!("{x:?}"));
+    inspect_false_sites!("struct", Rec, |o| o, [display, debug, sval, serde], no_pull, |x| format!("{x:?}"));
+    inspect_false_sites!("debug_only", DebugOnly, |o| o, [debug], no_pull, |x| format!("{x:?}"));
+    inspect_false_sites!("display_only", DisplayOnly, |o| o, [display], no_pull, |x| String::from(&x.0));
+
+    // the same captures inside the other macro forms
+    macro_rules! wrapped {
+        ($class:literal, $ty:ty, |$o:ident| $e:expr, [$($which:ident),*], $pull:expr, |$px:ident| $pexp:expr) => {$(
+            wrapped!(@one $which, $class, $ty, |$o| $e, $pull, |$px| $pexp);
+        )*};
+        (@one default_pull, $class:literal, $ty:ty, |$o:ident| $e:expr, $pull:expr, |$px:ident| $pexp:expr) => {
+            wrapped_sites!(reg, "default", $class, $ty, [], "t {k}", |$o| $e, |x, exp| { let $px = x; exp.pull = Some($pexp); }, $pull);
+        };
+        (@one default_display, $class:literal, $ty:ty, |$o:ident| $e:expr, $pull:expr, |$px:ident| $pexp:expr) => {
+            wrapped_sites!(reg, "default", $class, $ty, [], "t {k}", |$o| $e, |x, exp| { exp.display = Some(format!("{}", x)); }, no_pull);
+        };
+        (@one display, $class:literal, $ty:ty, |$o:ident| $e:expr, $pull:expr, |$px:ident| $pexp:expr) => {
+            wrapped_sites!(reg, "as_display", $class, $ty, [#[emit::as_display]], "t {#[emit::as_display] k}", |$o| $e, |x, exp| { exp.display = Some(format!("{}", x)); }, no_pull);
+        };
+        (@one debug, $class:literal, $ty:ty, |$o:ident| $e:expr, $pull:expr, |$px:ident| $pexp:expr) => {
+            wrapped_sites!(reg, "as_debug", $class, $ty, [#[emit::as_debug]], "t {#[emit::as_debug] k}", |$o| $e, |x, exp| { exp.debug = Some(format!("{:?}", x)); }, no_pull);
+        };
+        (@one value, $class:literal, $ty:ty, |$o:ident| $e:expr, $pull:expr, |$px:ident| $pexp:expr) => {
+            wrapped_sites!(reg, "as_value", $class, $ty, [#[emit::as_value]], "t {#[emit::as_value] k}", |$o| $e, |x, exp| { let $px = x; exp.pull = Some($pexp); }, $pull);
+        };
+        (@one sval, $class:literal, $ty:ty, |$o:ident| $e:expr, $pull:expr, |$px:ident| $pexp:expr) => {
+            wrapped_sites!(reg, "as_sval", $class, $ty, [#[emit::as_sval]], "t {#[emit::as_sval] k}", |$o| $e, |x, exp| { exp.serde = serde_json::to_string(x).ok(); exp.sval = sval_json::stream_to_string(x).ok(); }, no_pull);
+        };
+        (@one serde, $class:literal, $ty:ty, |$o:ident| $e:expr, $pull:expr, |$px:ident| $pexp:expr) => {
+            wrapped_sites!(reg, "as_serde", $class, $ty, [#[emit::as_serde]], "t {#[emit::as_serde] k}", |$o| $e, |x, exp| { exp.serde = serde_json::to_string(x).ok(); exp.sval = sval_json::stream_to_string(x).ok(); }, no_pull);
+        };
+        (@one error, $class:literal, $ty:ty, |$o:ident| $e:expr, $pull:expr, |$px:ident| $pexp:expr) => {
+            wrapped_sites!(reg, "as_error", $class, $ty, [#[emit::as_error]], "t {#[emit::as_error] k}", |$o| $e, |x, exp| { exp.chain = Some(chain_of(x)); }, no_pull);
+        };
+    }
+    wrapped!("int", i32, |o| *o, [default_pull, display, debug, value, sval, serde], |v: emit::Value| v.cast::<i32>().map(|x| format!("{x:?}")), |x| format!("{x:?}"));
+    wrapped!("string", String, |o| o, [default_pull, display, debug, value, sval, serde], |v: emit::Value| v.cast::<Cow<str>>().map(|x| format!("{:?}", &*x)), |x| format!("{:?}", &x[..]));
+    wrapped!("struct", Rec, |o| o, [default_display, display, debug, sval, serde], no_pull, |x| format!("{x:?}"));
+    wrapped!("error", ChainErr, |o| o, [default_display, display, debug, error], no_pull, |x| format!("{x:?}"));
 
     // f32: pulls back as the f64 it denotes; char: displays
     site!(reg, "default", "float32", f32, [], k, |o| *o, |x, exp| { exp.display = Some(format!("{}", x)); exp.pull = Some(format!("{:?}", *x as f64)); }, |v: emit::Value| v.cast::<f64>().map(|x| format!("{x:?}")));
@@ -562,6 +800,7 @@ fn check(promise: &[String], r: &SiteResult) -> Vec<(String, Value)> {
                 continue;
             }
             "chain" => (r.exp.chain.is_some() && obs.chain == r.exp.chain, json!(r.exp.chain), json!(obs.chain)),
+            "text_stable" => (r.base_display.is_some() && Some(&obs.display) == r.base_display.as_ref(), json!(r.base_display), json!(obs.display)),
             "null" => (obs.is_null, json!("the null value"), json!({"display": obs.display, "is_null": obs.is_null})),
             o => tool_error(&format!("unknown component {o}")),
         };
@@ -592,33 +831,64 @@ fn main() {
         rep.cases += 1;
         let mode = case["mode"].as_str().unwrap();
         let class = case["class"].as_str().unwrap();
+        let wrap = case["wrap"].as_str().unwrap_or("props");
+        let reader = case["reader"].as_str().unwrap_or("value");
+        let all_values = case["values"].as_str() == Some("all");
         let path: Vec<Step> = case["path"].as_array().unwrap().iter().map(|s| step_of(s.as_str().unwrap())).collect();
         let promise: Vec<String> = case["promise"].as_array().unwrap().iter().map(|s| s.as_str().unwrap().to_string()).collect();
         let only_ty = case.get("ty").and_then(|t| t.as_str());
-        let matching: Vec<&Site> = reg.iter().filter(|s| s.mode == mode && s.class == class && only_ty.map(|t| t == s.ty).unwrap_or(true)).collect();
+        let matching: Vec<&Site> = reg.iter().filter(|s| s.mode == mode && s.class == class && s.wrap == wrap && only_ty.map(|t| t == s.ty).unwrap_or(true)).collect();
         if matching.is_empty() {
-            tool_error(&format!("no call site for mode {mode} class {class}: spec and harness disagree"));
+            tool_error(&format!("no call site for mode {mode} class {class} wrap {wrap}: spec and harness disagree"));
         }
+        // the signature keeps the attribute's argument apart from the mode
+        let (sig_mode, sig_arg) = match mode.strip_suffix("_inspect_false") {
+            Some(m) => (m, " arg=inspect_false"),
+            None => (mode, ""),
+        };
         for (si, site) in matching.iter().enumerate() {
-            used_sites.insert((site.mode, site.class, site.ty));
-            for pass in 0..passes {
-                let salt = case.get("salt").and_then(|s| s.as_u64()).unwrap_or((line as u64) * 31 + si as u64 + pass * 1_000_003);
+            used_sites.insert((site.mode, site.class, site.wrap, site.ty));
+            // a stored replay case names its value; otherwise every extreme / the seeded draws
+            let stored: Option<(u64, Option<usize>)> = case.get("salt").and_then(|s| s.as_u64()).map(|s| (s, case.get("value_idx").and_then(|i| i.as_u64()).map(|i| i as usize)));
+            let mut runs: Vec<(u64, Option<usize>)> = Vec::new();
+            if let Some(st) = stored {
+                runs.push(st);
+            } else if all_values {
+                for i in 0..200usize {
+                    runs.push(((line as u64) * 31 + si as u64, Some(i)));
+                }
+            }
+            if stored.is_none() {
+                for pass in 0..passes {
+                    if all_values && pass == 0 {
+                        continue;
+                    }
+                    runs.push(((line as u64) * 31 + si as u64 + pass * 1_000_003, None));
+                }
+            }
+            for (salt, idx) in runs {
                 let mut pool = Pool::new(salt.wrapping_mul(0xC19C19), 512);
+                let r = catch(|| (site.run)(&mut pool, &path, reader, idx));
+                if let Ok(None) = r {
+                    break; // past the last extreme
+                }
                 execs += 1;
                 rep.checks += promise.len() as u64;
-                let r = catch(|| (site.run)(&mut pool, &path));
                 let mut c = case.clone();
                 c["ty"] = json!(site.ty);
                 c["salt"] = json!(salt);
+                if let Some(i) = idx {
+                    c["value_idx"] = json!(i);
+                }
                 let path_sig = case["path"].as_array().unwrap().iter().map(|s| s.as_str().unwrap()).collect::<Vec<_>>().join(">");
                 let mut report = |what: &str, comp: &str, detail: Value| {
-                    let sig = format!("{what} component={comp} mode={mode} class={class} ty={} path={path_sig}", site.ty);
-                    let cat = format!("{what} component={comp} mode={mode} class={class}");
+                    let sig = format!("{what} component={comp} mode={sig_mode} class={class}{sig_arg} wrap={wrap} via={reader} ty={} path={path_sig}", site.ty);
+                    let cat = format!("{what} component={comp} mode={sig_mode} class={class}{sig_arg} wrap={wrap} via={reader}");
                     let n = by_cat.entry(cat).or_insert(0);
                     *n += 1;
                     let mut d = detail;
                     d["sig"] = json!(sig);
-                    if *n <= 4 {
+                    if *n <= 2 {
                         rep.mismatch(what, &c, d);
                     } else {
                         rep.total_mismatches += 1;
@@ -626,7 +896,8 @@ fn main() {
                 };
                 match r {
                     Err(p) => report("panic while capturing / transforming / reading", "panic", json!({"panic": p})),
-                    Ok(r) => {
+                    Ok(None) => {}
+                    Ok(Some(r)) => {
                         for (comp, d) in check(&promise, &r) {
                             let mut d = d;
                             d["orig"] = json!(r.orig);
@@ -640,7 +911,7 @@ fn main() {
     rep.extra.insert("executions".into(), json!(execs));
     rep.extra.insert("call_sites".into(), json!(reg.len()));
     rep.extra.insert("call_sites_used".into(), json!(used_sites.len()));
-    let unused: Vec<String> = reg.iter().filter(|s| !used_sites.contains(&(s.mode, s.class, s.ty))).map(|s| format!("{}/{}/{}", s.mode, s.class, s.ty)).collect();
+    let unused: Vec<String> = reg.iter().filter(|s| !used_sites.contains(&(s.mode, s.class, s.wrap, s.ty))).map(|s| format!("{}/{}/{}/{}", s.mode, s.class, s.wrap, s.ty)).collect();
     rep.extra.insert("call_sites_unused".into(), json!(unused));
     rep.extra.insert("mismatch_categories".into(), json!(by_cat));
     rep.write(&args[2]);
